@@ -14,7 +14,7 @@ AB = "quantarhei/builders/aggregate_base.py::"
 OS = "quantarhei/builders/opensystem.py::"
 
 META = dict(
-    category="proof",
+    category="other",   # proofs, with one open known finding (a clause that is false on this tree)
     text=("AggregateBase._thermal_population is proved against its contract on the real code for every dimension, start "
           "index, energies, subtracted reorganisation energies and temperature: for T > 0 the matrix is diagonal with real "
           "non-negative entries, zero below the start index, of unit trace, with populations in the ratio "
